@@ -328,6 +328,7 @@ func (g *Gen) call(v *ssa.Call, c *ssa.CallCommon, ins ssa.Instruction) {
 	if con != nil {
 		g.assumedUsedNote(con)
 		env := g.calleeEnv(names, ins)
+		env.siblingScope = ci.kind == "var" || ci.kind == "closure"
 		for _, rq := range con.Requires {
 			t, err := g.eval(rq.Expr, env)
 			if err != nil {
@@ -340,8 +341,12 @@ func (g *Gen) call(v *ssa.Call, c *ssa.CallCommon, ins ssa.Instruction) {
 		if (!con.Pure && (len(con.Modifies) > 0)) || con.Fresh || con.Allocates {
 			g.bumpAlloc()
 		}
+		// modifies targets denote locations of the PRE-call state: evaluate them there, then havoc
+		envM := env.clone()
+		envM.st = pre
+		envM.old = pre
 		for _, m := range con.Modifies {
-			g.applyModifies(m, env, ci)
+			g.applyModifies(m, envM, ci)
 		}
 		if con.CallsBack {
 			g.callbackInvariants(c, ins, true)
@@ -356,6 +361,7 @@ func (g *Gen) call(v *ssa.Call, c *ssa.CallCommon, ins ssa.Instruction) {
 			g.resultAssumptions(rt, res.Type(), con.Fresh)
 		}
 		env2 := g.calleeEnv(names, ins)
+		env2.siblingScope = env.siblingScope
 		env2.old = pre
 		if res != nil {
 			g.bindCallResult(env2, rt)
